@@ -600,6 +600,40 @@ pub fn drive_retime(s: &mut Session, rng: &mut Rng) {
     }
 }
 
+/// a time control that is turned slowly while its phase runs: the time is re-sent before every tick and moves
+/// by about 1e-7 s per request (far below anything a "has it changed?" shortcut would notice) for thousands
+/// of ticks; the sum of the requests is a change of several counts in the per-tick increment, and the phase
+/// must still end when the increments in force add up to the counter range
+pub fn drive_creep(s: &mut Session, _rng: &mut Rng) {
+    let names = ['a', 'd', 'r'];
+    for &(fs, t0, dt, n) in [(1000.0f32, 2.0f64, -1.0e-7f64, 1500u32), (1000.0, 1.5, 1.1e-7, 1400), (100.0, 19.0, -1.0e-6, 1800)].iter() {
+        for w in 0..3usize {
+            s.start(fs);
+            for k in 0..3usize {
+                s.set_time(names[k], if k == w { t0 as f32 } else { (3.0 / fs as f64) as f32 });
+            }
+            s.set_sustain(0.5);
+            s.gate_on();
+            if w >= 1 {
+                s.run_phase(4000);
+            }
+            if w == 2 {
+                s.run_phase(4000);
+                s.tick();
+                s.gate_off();
+            }
+            let mut t = t0;
+            for _ in 0..n {
+                t += dt;
+                s.set_time(names[w], t as f32);
+                s.tick();
+            }
+            s.run_phase(4000);
+            s.tick();
+        }
+    }
+}
+
 /// every cell of every curve: increments that visit all 1024 cells, several start levels
 pub fn drive_cells(s: &mut Session, rng: &mut Rng, thorough: bool) {
     // inc = 1024 exactly (fs = 1024 Hz, T = 16 s): 16 logged ticks per cell
@@ -738,6 +772,7 @@ pub fn record(driver: &str, seed: u64, thorough: bool, out: &mut Out) -> Stats {
             drive_durations(&mut s, &mut rng, if thorough { 1500 } else { 120 });
             drive_retime(&mut s, &mut rng);
             drive_sustain_bounds(&mut s, &mut rng);
+            drive_creep(&mut s, &mut rng);
         }
         "cells" => drive_cells(&mut s, &mut rng, thorough),
         "extreme" => drive_extreme(&mut s, &mut rng, if thorough { 400 } else { 60 }),
